@@ -21,7 +21,8 @@ def run_impl(case):
     import plumpy
     logging.disable(logging.CRITICAL)
     try:
-        cls = og.build_workchain(block, tabs, alias=len(og.case_line(block, tabs)) % 3 == 0)
+        cls = og.build_workchain(block, tabs, alias=len(og.case_line(block, tabs)) % 3 == 0,
+                                 required_output=len(og.case_line(block, tabs)) % 4 == 1)
     except Exception as e:  # construction of the outline rejected
         return dict(error=f'define:{type(e).__name__}', events=[], result=None)
     loop = asyncio.new_event_loop()
